@@ -88,7 +88,12 @@ def coq_project():
     """(Re)generate tables from the repo under test, _CoqProject and Makefile; run make. Returns (ok, log)."""
     t = subprocess.run([PY, os.path.join(VERIF, "tools", "translate_tables.py"), REPO,
                         os.path.join(COQDIR, "generated")], capture_output=True, text=True, env=impl_env())
-    if t.returncode != 0:
+    tlog = ""
+    if t.returncode == 3:
+        # some translator steps failed closed: their generated files are gone, so exactly the theorems that depend on them
+        # stop building (make -k below); the other properties keep their proofs and their tie
+        tlog = "table translator failed closed for some tables:\n" + t.stdout[-2000:] + "\n"
+    elif t.returncode != 0:
         return False, "table translator failed (fail-closed):\n" + t.stdout[-2000:] + t.stderr[-3000:]
     files = []
     for d in ("theories", "generated"):
@@ -104,18 +109,32 @@ def coq_project():
         open(pp, "w").write(proj)
         subprocess.run(["coq_makefile", "-f", "_CoqProject", "-o", "Makefile"], cwd=COQDIR,
                        capture_output=True, text=True)
-    m = subprocess.run(["timeout", "3000", "make", f"-j{NPROC}"], cwd=COQDIR, capture_output=True, text=True)
-    return m.returncode == 0, (m.stdout[-6000:] + m.stderr[-6000:])
+    m = subprocess.run(["timeout", "3000", "make", "-k", f"-j{NPROC}"], cwd=COQDIR, capture_output=True, text=True)
+    return m.returncode == 0 and not tlog, tlog + (m.stdout[-6000:] + m.stderr[-6000:])
+
+
+def props_files(prop):
+    """The statement files of a property: Props/<prop>.v and its extensions Props/<prop>B.v, Props/<prop>E.v ..."""
+    d = os.path.join(COQDIR, "theories", "Props")
+    return sorted(f for f in os.listdir(d) if re.fullmatch(re.escape(prop) + r"[A-Z]?\.v", f))
+
+
+def props_up_to_date(prop):
+    """True iff every statement file of the property has a compiled object that `make` considers up to date
+    (its whole dependency closure, generated tables included, was rebuilt successfully)."""
+    for f in props_files(prop):
+        q = subprocess.run(["make", "-q", f"theories/Props/{f}o"], cwd=COQDIR, capture_output=True, text=True)
+        if q.returncode != 0:
+            return False
+    return True
 
 
 def props_obligations(prop):
-    """Count the theorems stated in Props/<prop>.v and whether its .vo is current."""
-    src = os.path.join(COQDIR, "theories", "Props", prop + ".v")
-    vo = src + "o"
-    txt = open(src).read()
-    names = re.findall(r"^\s*(?:Theorem|Example)\s+(\w+)", txt, re.M)
-    ok = os.path.exists(vo) and os.path.getmtime(vo) >= os.path.getmtime(src)
-    return names, ok
+    """The theorems stated in the property's statement files, and whether their compiled objects are up to date."""
+    names = []
+    for f in props_files(prop):
+        names += re.findall(r"^\s*(?:Theorem|Example)\s+(\w+)", open(os.path.join(COQDIR, "theories", "Props", f)).read(), re.M)
+    return names, props_up_to_date(prop)
 
 
 COQ_FLAGS = ["-Q", os.path.join(COQDIR, "theories"), "Hdl21", "-Q", os.path.join(COQDIR, "generated"), "Hdl21Gen"]
@@ -241,11 +260,12 @@ class Run:
     def proof_status(self, build_ok, build_log):
         names, current = props_obligations(self.prop)
         self.coverage["obligations"] = len(names)
-        self.coverage["discharged"] = len(names) if (build_ok and current) else 0
+        # per property: its statement files and everything they depend on were rebuilt successfully (make -k; make -q)
+        self.coverage["discharged"] = len(names) if current else 0
         self.coverage["theorems"] = names
         self.coverage["checker_cmd"] = "cd /verif/coq && coq_makefile -f _CoqProject -o Makefile && make  (coqc 8.16.1; thorough tier adds coqchk -o)"
         self.coverage["trusted_base"] = TRUSTED_BASE
-        self.build_ok = build_ok and current
+        self.build_ok = current
         self.build_log = build_log
 
     def finish(self):
